@@ -71,6 +71,16 @@ def fault_list(plat, dates):
 
 
 # ------------------------------------------------------------------------------------------------ running
+
+def _run(cmd):
+    """subprocess.run, retried while libsimgrid is being relinked by somebody else's bin/check (loader error, exit 127)"""
+    for attempt in range(12):
+        r = subprocess.run(cmd, stdout=subprocess.PIPE, stderr=subprocess.PIPE, text=True)
+        if r.returncode != 127 or "libsimgrid" not in r.stderr:
+            return r
+        time.sleep(10)
+    return r
+
 def scenario_text(cases):
     """cases: list of (plat, prog, [(res, date, method)])"""
     L = []
@@ -88,7 +98,7 @@ def execute(exe, d, cases, tag):
     """-> list (per case) of observed outcome, or ('anomaly', text)"""
     sf = os.path.join(d, "scn-%s-%d.txt" % (tag, os.getpid()))
     open(sf, "w").write(scenario_text(cases))
-    r = subprocess.run([exe, sf, "--log=root.thres:critical", "--cfg=contexts/stack-size:128"], stdout=subprocess.PIPE, stderr=subprocess.PIPE, text=True)
+    r = _run([exe, sf, "--log=root.thres:critical", "--cfg=contexts/stack-size:128"])
     os.unlink(sf)
     if r.returncode != 0 or not r.stdout.rstrip().splitlines()[-1:][0].startswith("END"):
         return None, "exit %s: %s" % (r.returncode, r.stderr[-1500:])
